@@ -223,7 +223,9 @@ impl Env {
         let st = http_post(&env.sids[0].to_string(), canary.as_bytes(), Some("application/x-www-form-urlencoded"))?;
         env.flush()?;
         let evs = env.take_events();
-        if st != 200 || evs.len() != 1 || !evs[0].name.starts_with("__canary#") {
+        // (identity only: how many events one POST makes is what the run itself checks)
+        let mine = format!("__canary#{}", std::process::id());
+        if st != 200 || evs.is_empty() || evs.iter().any(|e| e.name != mine) {
             return Err(format!(
                 "port {} is answered by a different process (canary status {}, events {:?})",
                 PORT, st, evs
@@ -383,6 +385,18 @@ fn obs_wire(o: &[Obs]) -> String {
         ".".to_string()
     } else {
         o.iter().map(|e| format!("{}~{}~{}", e.sid, hex(e.name.as_bytes()), e.data.wire())).collect::<Vec<_>>().join(";")
+    }
+}
+
+/// records an oracle failure; at most 6 reports per signature so that frequent (known) classes cannot
+/// crowd a new one out of the report (every failure is still counted)
+fn oracle_fail_capped(rep: &mut Report, sig: &str, v: Value) {
+    let key = format!("oraclefail_{}", sig);
+    rep.count(&key);
+    if rep.dist.get(&key).copied().unwrap_or(0) <= 6 {
+        rep.oracle_fail(sig, v);
+    } else {
+        rep.count("oracle_failures");
     }
 }
 
@@ -803,7 +817,7 @@ fn check_posts(env: &mut Env, model: &mut Model, rep: &mut Report, cases: &[Post
         rep.count(&format!("oracle_{}", verdict.split(':').next().unwrap_or("?")));
         if verdict != "ok" && verdict != "na" {
             let sig = format!("C20:recv:{}:{}", verdict, name_class(&fields));
-            rep.oracle_fail(&sig, json!({"origin": origin, "case": "post", "seg": c.seg, "body_hex": hex(&c.body),
+            oracle_fail_capped(rep, &sig, json!({"origin": origin, "case": "post", "seg": c.seg, "body_hex": hex(&c.body),
                 "body_text": lossy(&c.body), "kind": c.kind, "status": status,
                 "events": per_case[i].iter().map(|o| o.to_json()).collect::<Vec<_>>()}));
         }
@@ -1378,8 +1392,8 @@ fn check_e2e(env: &mut Env, model: &mut Model, rep: &mut Report, c: &E2eCase, or
     };
     let mloc = unhex(&model.ask(&format!("http location {}", rsid))).map(|b| lossy(&b));
     if mloc.as_deref() != Some(&loc_short) || loc_short != loc_long {
+        // reported; the case still runs with what the session published (a wrong location loses the event)
         rep.disagree(json!({"origin": origin, "what": "location published in _ioprocessors", "impl": [loc_short, loc_long], "model": mloc}));
-        return;
     }
     let doc = match c.document(&loc_short) {
         Some(d) => d,
@@ -1470,7 +1484,7 @@ fn check_e2e(env: &mut Env, model: &mut Model, rep: &mut Report, c: &E2eCase, or
         let mut j = c.to_json();
         j["origin"] = json!(origin);
         j["events"] = json!(got.iter().map(|o| o.to_json()).collect::<Vec<_>>());
-        rep.oracle_fail(&sig, j);
+        oracle_fail_capped(rep, &sig, j);
     }
     if c.send.params.is_some() {
         rep.sample(json!({"e2e": c.to_json(), "arrived": got.iter().map(|o| o.to_json()).collect::<Vec<_>>()}));
